@@ -12,6 +12,7 @@ import (
 	"verif/engine/props/c06"
 	"verif/engine/props/c13"
 	"verif/engine/props/c19"
+	"verif/engine/props/c20"
 	"verif/engine/props/core"
 )
 
@@ -25,6 +26,7 @@ var checks = map[string]struct {
 	"C06": {"model_checking", c06.Run},
 	"C13": {"model_checking", c13.Run},
 	"C19": {"model_checking", c19.Run},
+	"C20": {"model_checking", c20.Run},
 }
 
 func main() {
